@@ -95,7 +95,28 @@ pub fn compiled_evo_strategy(h: usize) -> BoxedStrategy<EvoCase> {
     let decls = crate::props::derived::batch().histories[h].clone();
     let n = decls.len();
     // DeduplicatedString anywhere inside (also in nested declarations) rules out cross-version reading
-    let dedup = crate::props::derived::batch().dedup_histories[h] || decls.iter().any(|d| Ty::Adt(d.clone()).any(&|t| *t == Ty::Dedup));
+    // ... and so do nested declarations whose evolution header carries removed-field names: those names are
+    // deduplicated strings too, so a reader that skips the chunk holding their first occurrence cannot resolve a later
+    // back-reference (the same format limitation, reached without any user-level DeduplicatedString)
+    let nested_header_names = |d: &Arc<vmodel::Decl>| {
+        let fields: Vec<&vmodel::Field> = match &d.body {
+            vmodel::DeclBody::Struct(r) => r.fields.iter().collect(),
+            _ => vec![],
+        };
+        fields.iter().any(|f| {
+            f.ty.any(&|t| match t {
+                Ty::Adt(n) => {
+                    let recs: Vec<&Record> = match &n.body {
+                        vmodel::DeclBody::Struct(r) => vec![r],
+                        vmodel::DeclBody::Enum { variants, .. } => variants.iter().map(|v| &v.record).collect(),
+                    };
+                    recs.iter().any(|r| r.steps.iter().any(|s| matches!(s, vmodel::Step::Removed { .. } | vmodel::Step::MadeTransient { .. })))
+                }
+                _ => false,
+            })
+        })
+    };
+    let dedup = crate::props::derived::batch().dedup_histories[h] || decls.iter().any(|d| Ty::Adt(d.clone()).any(&|t| *t == Ty::Dedup)) || decls.iter().any(nested_header_names);
     (0..n, 0..n, prop::sample::select(vec![Placement::Top, Placement::Top, Placement::Between, Placement::Between, Placement::InVec, Placement::InOption]))
         .prop_flat_map(move |(w, r, placement)| {
             // cross-version reading with DeduplicatedString fields is documented as unsupported
@@ -245,7 +266,7 @@ pub fn run_c03(cx: &Cx) -> PropResult {
     let mut r = PropResult::new(
         acc,
         "exploration",
-        "E3 cases = (legal evolution history H built by construction from a generated spec: 0-6 initial fields incl. transient ones, up to 8 (every 4th shard: 40) steps of FieldAdded at a random declaration position / FieldMadeOptional / FieldRemoved / FieldMadeTransient; writer version w; reader version r; value of version w; placement: top level, between two sibling fields of a tuple, element of a Vec, inside Option, body of a struct variant of an enum). Both versions are driven through AdtSerializer / AdtDeserializer exactly as the derive expansion does (E3; validated against the real expansion by C02). Oracle: expected(H, w, r, v) computed on the logical level from the documentation (default / wrap / unwrap / absent-if-optional / the two specific errors with the field name, first error in declaration order), siblings intact and the whole buffer consumed. Non-trivial = w != r; classes = reader branch x (w<r, w=r, w>r) x placement. E2 cases: the same check on all versions of the 36 histories of the compiled batch (types H{h}V{i} generated by vgen and compiled with the real derive macro), all (w, r) pairs; histories with DeduplicatedString fields only with w = r.",
+        "E3 cases = (legal evolution history H built by construction from a generated spec: 0-6 initial fields incl. transient ones, up to 8 (every 4th shard: 40) steps of FieldAdded at a random declaration position / FieldMadeOptional / FieldRemoved / FieldMadeTransient; writer version w; reader version r; value of version w; placement: top level, between two sibling fields of a tuple, element of a Vec, inside Option, body of a struct variant of an enum). Both versions are driven through AdtSerializer / AdtDeserializer exactly as the derive expansion does (E3; validated against the real expansion by C02). Oracle: expected(H, w, r, v) computed on the logical level from the documentation (default / wrap / unwrap / absent-if-optional / the two specific errors with the field name, first error in declaration order), siblings intact and the whole buffer consumed. Non-trivial = w != r; classes = reader branch x (w<r, w=r, w>r) x placement. E2 cases: the same check on all versions of the 36 histories of the compiled batch (types H{h}V{i} generated by vgen and compiled with the real derive macro), all (w, r) pairs; histories whose types contain DeduplicatedString — or nested declarations with removed-field names in their headers, which are deduplicated strings as well — only with w = r.",
     );
     r.assumptions = vec![
         "DESIGN section 9: embedded placement with stored version 0 and a removed chunk-0 field is outside the quantifier (counted under excluded_by_construction)".into(),
